@@ -15,8 +15,8 @@
 pub struct G<T> { pub dn: DnLink<T>, pub ups: Seq<UpLink<T>>, pub mdata: Seq<Seq<T>>, pub cat: Seq<T> }
 pub struct Cap { pub n: usize, pub pullable: bool }
 pub struct Heap {
-    pub i: usize, pub source_talkback: Option<UpTb>, pub got_pull: bool, pub next_ref: Option<Tok_next>, pub disposed: bool,
-    pub alloc_i: bool, pub alloc_source_talkback: bool, pub alloc_got_pull: bool, pub alloc_next_ref: bool, pub alloc_disposed: bool,
+    pub i: usize, pub source_talkback: Option<UpTb>, pub got_pull: bool, pub next_ref: Option<Tok_next>, pub disposed: bool, pub ended: bool,
+    pub alloc_i: bool, pub alloc_source_talkback: bool, pub alloc_got_pull: bool, pub alloc_next_ref: bool, pub alloc_disposed: bool, pub alloc_ended: bool,
 }
 #[derive(Clone, Copy)] pub struct Tok_sink_talkback {}
 #[derive(Clone, Copy)] pub struct Tok_source_talkback {}
@@ -26,12 +26,13 @@ pub struct Heap {
 //@cell got_pull: bool = atomic
 //@cell next_ref: Option<Tok_next> = swap_option
 //@cell disposed: bool = atomic
+//@cell ended: bool = atomic
 
 pub open spec fn cap_ok(c: Cap) -> bool { $NCOND }
 pub open spec fn g_init<T>(c: Cap) -> G<T> { G { dn: dn_init(), ups: Seq::new(c.n as nat, |j: int| up_init::<T>()), mdata: Seq::new(c.n as nat, |j: int| Seq::<T>::empty()), cat: Seq::empty() } }
-pub open spec fn none_alloc(h: Heap) -> bool { !h.alloc_i && !h.alloc_source_talkback && !h.alloc_got_pull && !h.alloc_next_ref && !h.alloc_disposed }
+pub open spec fn none_alloc(h: Heap) -> bool { !h.alloc_i && !h.alloc_source_talkback && !h.alloc_got_pull && !h.alloc_next_ref && !h.alloc_disposed && !h.alloc_ended }
 /// every cell the subscription uses is its own: the four cells of the member machinery, or (no members) the disposal flag
-pub open spec fn all_alloc(h: Heap) -> bool { (h.alloc_i && h.alloc_source_talkback && h.alloc_got_pull && h.alloc_next_ref) || h.alloc_disposed }
+pub open spec fn all_alloc(h: Heap) -> bool { (h.alloc_i && h.alloc_source_talkback && h.alloc_got_pull && h.alloc_next_ref && h.alloc_ended) || h.alloc_disposed }
 #[verifier::external_body] pub fn fresh_heap() -> (h: Heap) ensures none_alloc(h) { unimplemented!() }
 
 /// concatenation of the members' data in member order
@@ -82,8 +83,8 @@ pub open spec fn inv_safe<T>(h: Heap, g: G<T>, c: Cap) -> bool {
     &&& g.ups.len() == c.n
     &&& (c.n > 0 ==> h.i <= c.n)
     &&& (c.n > 0 ==> h.next_ref is Some)
-    &&& (c.n > 0 && g.dn.phase != Dn::NotGreeted ==> h.source_talkback is Some)
-    &&& (h.i < c.n && up_greeted(cur(h, g).phase) ==> h.source_talkback == Some(UpTb { i: h.i }))
+    &&& (h.i < c.n && cur(h, g).phase == Up::Live ==> h.source_talkback == Some(UpTb { i: h.i }))
+    &&& (c.n > 0 && h.source_talkback is Some ==> h.i < c.n && h.source_talkback == Some(UpTb { i: h.i }) && (cur(h, g).phase == Up::Live || cur(h, g).phase == Up::EndedByUs || cur(h, g).phase == Up::ErroredBySelf))
 }
 pub open spec fn inv_seq<T>(h: Heap, g: G<T>, c: Cap) -> bool {
     &&& (forall|j: int| 0 <= j < h.i && j < g.ups.len() ==> (#[trigger] g.ups[j]).phase == Up::EndedBySelf)
@@ -95,7 +96,9 @@ pub open spec fn inv_proto<T>(h: Heap, g: G<T>, c: Cap) -> bool {
     &&& (c.n > 0 ==> (g.dn.phase == Dn::NotGreeted <==> h.i == 0 && h.i < c.n && cur(h, g).phase == Up::Subscribing))
     &&& (c.n > 0 ==> (g.dn.phase == Dn::Live ==> h.i < c.n && (cur(h, g).phase == Up::Live || (cur(h, g).phase == Up::Subscribing && h.i > 0))))
     &&& (c.n > 0 ==> (g.dn.phase == Dn::EndedByUs <==> h.i == c.n || (h.i < c.n && cur(h, g).phase == Up::ErroredBySelf)))
-    &&& (c.n > 0 ==> (g.dn.phase == Dn::EndedBySink <==> h.i < c.n && cur(h, g).phase == Up::EndedByUs))
+    &&& (c.n > 0 ==> (g.dn.phase == Dn::EndedBySink ==> h.i < c.n && (cur(h, g).phase == Up::EndedByUs || cur(h, g).phase == Up::Subscribing)))
+    &&& (c.n > 0 && h.i < c.n && cur(h, g).phase == Up::EndedByUs ==> g.dn.phase == Dn::EndedBySink)
+    &&& (c.n > 0 ==> (h.ended <==> g.dn.phase == Dn::EndedBySink))
     &&& (g.dn.phase == Dn::NotGreeted ==> g.dn.pulls == 0 && g.dn.data.len() == 0)
     // no members: the sink is greeted and completed inside the subscribing call, unless it disposes from inside its greeting
     &&& (c.n == 0 ==> g.dn.phase != Dn::NotGreeted && (g.dn.phase == Dn::EndedBySink <==> h.disposed) && g.dn.data.len() == 0)
@@ -118,7 +121,8 @@ pub open spec fn inv_fwd<T>(h: Heap, g: G<T>, c: Cap) -> bool {
     &&& (h.i == c.n ==> g.dn.err is None)
     &&& (g.dn.phase != Dn::EndedByUs ==> g.dn.err is None)
     &&& (g.dn.phase != Dn::EndedBySink ==> g.dn.sink_err is None)
-    &&& (h.i < c.n && cur(h, g).phase == Up::EndedByUs ==> cur(h, g).term_err == g.dn.sink_err)
+    // (a member that greets only after the sink has gone is told to stop with a plain Terminate)
+    &&& (h.i < c.n && cur(h, g).phase == Up::EndedByUs ==> cur(h, g).term_err == g.dn.sink_err || cur(h, g).term_err is None)
     &&& (forall|j: int| 0 <= j < g.ups.len() && g.ups[j].phase != Up::EndedByUs ==> (#[trigger] g.ups[j]).term_err is None)
 }
 pub open spec fn inv_pull<T>(h: Heap, g: G<T>, c: Cap) -> bool {
@@ -140,8 +144,10 @@ pub open spec fn mono<T>(a: Heap, ga: G<T>, b: Heap, gb: G<T>) -> bool {
     &&& a.i <= b.i
     &&& (all_alloc(a) ==> all_alloc(b))
 }
-pub open spec fn sink_rel<T>(a: Heap, ga: G<T>, b: Heap, gb: G<T>, c: Cap) -> bool { quiet(gb) && (c.n == 0 ==> gb.dn.terms == ga.dn.terms) }
-pub open spec fn up_rel<T>(i: int, a: Heap, ga: G<T>, b: Heap, gb: G<T>, c: Cap) -> bool { quiet(ga) ==> quiet(gb) }
+/// `quiet` (no member between subscribed and greeted) is an invariant only when members greet inside the subscribing call
+pub open spec fn qt<T>(g: G<T>) -> bool { $LATE || quiet(g) }
+pub open spec fn sink_rel<T>(a: Heap, ga: G<T>, b: Heap, gb: G<T>, c: Cap) -> bool { qt(gb) && (c.n == 0 ==> gb.dn.terms == ga.dn.terms) }
+pub open spec fn up_rel<T>(i: int, a: Heap, ga: G<T>, b: Heap, gb: G<T>, c: Cap) -> bool { qt(ga) ==> qt(gb) }
 pub open spec fn sub_rel<T>(i: int, a: Heap, ga: G<T>, b: Heap, gb: G<T>, c: Cap) -> bool { true }
 pub open spec fn sub_pre<T>(i: int, h: Heap, g: G<T>, c: Cap, m: Message<Never, Tok_source_talkback>) -> bool {
     forall|j: int| 0 <= j < g.ups.len() && j != i ==> (#[trigger] g.ups[j]).phase != Up::Subscribing
@@ -151,16 +157,16 @@ pub open spec fn upsrc_gate<T>(s: UpSrc, k: int, h: Heap, g: G<T>, c: Cap, m: Me
     if k == $GATE_LAZY { forall|j: int| 0 <= j < s.i && j < g.ups.len() ==> (#[trigger] g.ups[j]).phase == Up::EndedBySelf } else { true }
 }
 
-//@include env_dn.rs OP=concat TP=T G=G<T> GNAME=G HEAP=Heap O=T ORPHAN="forall|j: int| 0 <= j < g.ups.len() ==> (#[trigger] g.ups[j]).phase != Up::Live" QUIET="quiet(g)" LITE=false SINKGATE=true
-//@include env_upn.rs OP=concat TP=T G=G<T> GNAME=G HEAP=Heap I=T LITE=false LATE=false
+//@include env_dn.rs OP=concat TP=T G=G<T> GNAME=G HEAP=Heap O=T ORPHAN="forall|j: int| 0 <= j < g.ups.len() ==> (#[trigger] g.ups[j]).phase != Up::Live" QUIET="qt(g)" LITE=false SINKGATE=true
+//@include env_upn.rs OP=concat TP=T G=G<T> GNAME=G HEAP=Heap I=T LITE=false LATE=$LATE
 
 /// the state in which `next` is entered: the cursor points at a member that is not subscribed yet
 pub open spec fn pre_next<T>(h: Heap, g: G<T>, c: Cap) -> bool {
-    &&& c.n > 0 && g.ups.len() == c.n && h.i <= c.n && quiet(g)
+    &&& c.n > 0 && g.ups.len() == c.n && h.i <= c.n && qt(g)
     &&& inv_seq(h, g, c) && inv_term(h, g, c) && inv_data(h, g, c)
     &&& (h.i < c.n ==> cur(h, g) == up_init::<T>())
-    &&& (h.i == 0 ==> g.dn == dn_init::<T>() && !h.got_pull)
-    &&& (h.i > 0 ==> g.dn.phase == Dn::Live && h.next_ref is Some && h.source_talkback is Some && g.dn.err is None && g.dn.sink_err is None)
+    &&& (h.i == 0 ==> g.dn == dn_init::<T>() && !h.got_pull && h.source_talkback is None && !h.ended)
+    &&& (h.i > 0 ==> g.dn.phase == Dn::Live && h.next_ref is Some && h.source_talkback is None && !h.ended && g.dn.err is None && g.dn.sink_err is None)
     &&& (h.got_pull <==> g.dn.pulls > 0)
     &&& (forall|j: int| 0 <= j < g.ups.len() && g.ups[j].phase != Up::EndedByUs ==> (#[trigger] g.ups[j]).term_err is None)
     &&& (c.pullable ==> g.dn.data.len() <= g.dn.pulls && g.dn.pulls <= g.dn.data.len() + 1 && (h.i > 0 ==> g.dn.pulls == g.dn.data.len() + 1))
@@ -174,7 +180,7 @@ impl Tok_next {
         ensures
             INV!(*final(h), final(g)@, *c),
             mono(*old(h), old(g)@, *final(h), final(g)@),
-            quiet(final(g)@),
+            qt(final(g)@),
     {
         concat__next(h, g, c)
     }
@@ -187,7 +193,7 @@ pub fn concat__subscribe<T>(h: &mut Heap, g: &mut Ghost<G<T>>, c: &Cap, message:
         none_alloc(*old(h)),
     ensures
         INV!(*final(h), final(g)@, *c),
-        quiet(final(g)@),
+        qt(final(g)@),
         all_alloc(*final(h)), /* @C13 every cell is allocated per subscription */
 {
     let sources = Sources { n: c.n };
@@ -203,10 +209,10 @@ pub fn concat__next<T>(h: &mut Heap, g: &mut Ghost<G<T>>, c: &Cap)
     ensures
         INV!(*final(h), final(g)@, *c),
         mono(*old(h), old(g)@, *final(h), final(g)@), /* @C02 phases only move forward */
-        quiet(final(g)@),
+        qt(final(g)@),
 {
     let sources = Sources { n: c.n }; let n = c.n; let sink = SinkH {};
-    let i = Cell_i {}; let source_talkback = Cell_source_talkback {}; let got_pull = Cell_got_pull {}; let talkback = Tok_sink_talkback {}; let next_ref = Cell_next_ref {};
+    let i = Cell_i {}; let source_talkback = Cell_source_talkback {}; let got_pull = Cell_got_pull {}; let ended = Cell_ended {}; let talkback = Tok_sink_talkback {}; let next_ref = Cell_next_ref {};
     BODY!("next");
 }
 
@@ -217,17 +223,17 @@ pub fn concat__source_talkback<T>(h: &mut Heap, g: &mut Ghost<G<T>>, c: &Cap, wh
         who < c.n,
         !(message is Pull),
         message is Handshake ==> old(g)@.ups[who as int].phase == Up::Subscribing && message->Handshake_0 == (UpTb { i: who }) && sub_pre(who as int, *old(h), old(g)@, *c, Message::Handshake(Tok_source_talkback {})),
-        !(message is Handshake) ==> old(g)@.ups[who as int].phase == Up::Live && quiet(old(g)@),
+        !(message is Handshake) ==> old(g)@.ups[who as int].phase == Up::Live && qt(old(g)@),
         !(message is Handshake) && c.pullable ==> old(g)@.ups[who as int].data.len() < old(g)@.ups[who as int].pulls, // profile P: a pullable member answers an outstanding Pull only
     ensures
         INV!(*final(h), final(g)@, *c),
         mono(*old(h), old(g)@, *final(h), final(g)@), /* @C02 phases only move forward */
-        quiet(final(g)@),
+        qt(final(g)@),
         message is Error ==> final(g)@.dn.phase == Dn::EndedByUs && final(g)@.dn.err == Some(message->Error_0), /* @C05 error forwarded once, unchanged */
-        message is Handshake && who > 0 && old(h).got_pull ==> final(g)@.ups[who as int].pulls >= 1, /* @C09 an outstanding Pull is re-issued to the next member */
+        message is Handshake && who > 0 && old(h).got_pull && !old(h).ended ==> final(g)@.ups[who as int].pulls >= 1, /* @C09 an outstanding Pull is re-issued to the next member */
 {
     let n = c.n; let sink = SinkH {};
-    let i = Cell_i {}; let source_talkback = Cell_source_talkback {}; let got_pull = Cell_got_pull {}; let talkback = Tok_sink_talkback {}; let next_ref = Cell_next_ref {};
+    let i = Cell_i {}; let source_talkback = Cell_source_talkback {}; let got_pull = Cell_got_pull {}; let ended = Cell_ended {}; let talkback = Tok_sink_talkback {}; let next_ref = Cell_next_ref {};
     proof {
         if message is Data {
             lemma_flat_push(g@.mdata, who as int, message->Data_0);
@@ -242,7 +248,7 @@ pub fn concat__source_talkback<T>(h: &mut Heap, g: &mut Ghost<G<T>>, c: &Cap, wh
 pub fn concat__sink_talkback<T>(h: &mut Heap, g: &mut Ghost<G<T>>, c: &Cap, message: Message<Never, Never>)
     requires
         INV!(*old(h), old(g)@, *c),
-        quiet(old(g)@),
+        qt(old(g)@),
         old(g)@.dn.phase == Dn::Live,
         message is Pull || message is Terminate || message is Error,
         message is Pull && c.pullable ==> old(g)@.dn.pulls <= old(g)@.dn.data.len(), // profile P
@@ -252,9 +258,9 @@ pub fn concat__sink_talkback<T>(h: &mut Heap, g: &mut Ghost<G<T>>, c: &Cap, mess
         sink_rel(*old(h), old(g)@, *final(h), final(g)@, *c),
         (message is Terminate || message is Error) ==> (forall|j: int| 0 <= j < final(g)@.ups.len() ==> (#[trigger] final(g)@.ups[j]).phase != Up::Live), /* @C04 disposal reaches the upstream */
         (message is Terminate || message is Error) ==> final(g)@.dn.phase == Dn::EndedBySink, /* @C03 no termination back to a sink that disposed */
-        message is Error && c.n > 0 ==> final(h).i < c.n && final(g)@.ups[final(h).i as int].term_err == Some(message->Error_0), /* @C04 a sink Error goes upstream as that Error */
+        message is Error && c.n > 0 && old(h).i < c.n && old(g)@.ups[old(h).i as int].phase == Up::Live ==> final(h).i < c.n && final(g)@.ups[final(h).i as int].term_err == Some(message->Error_0), /* @C04 a sink Error goes upstream as that Error */
 {
-    let source_talkback = Cell_source_talkback {}; let got_pull = Cell_got_pull {}; let disposed = Cell_disposed {};
+    let source_talkback = Cell_source_talkback {}; let got_pull = Cell_got_pull {}; let disposed = Cell_disposed {}; let ended = Cell_ended {};
     proof { g@ = G { dn: dn_recv(g@.dn, message), ..g@ }; }
     BODY!("$SINKTB");
 }
@@ -270,11 +276,17 @@ pub fn world<T>(c: &Cap)
     loop
         invariant
             INV!(h, g@, *c),
-            cap_ok(*c), quiet(g@),
+            cap_ok(*c), qt(g@),
     {
         if nondet_bool() {
             let j = nondet_usize();
-            if j < c.n { up_events_of(j, &mut h, &mut g, c); }
+            if j < c.n {
+                let ghost pending = $LATE && g@.ups[j as int].phase == Up::Subscribing;
+                if ghost_test(Ghost(pending)) {
+                    concat__source_talkback(&mut h, &mut g, c, j, Message::Handshake(UpTb { i: j }));   // a late greeting
+                }
+                up_events_of(j, &mut h, &mut g, c);
+            }
         } else if ghost_test(Ghost(g@.dn.phase == Dn::Live)) {
             if nondet_bool() {
                 if !c.pullable || ghost_test(Ghost(g@.dn.pulls <= g@.dn.data.len())) {
